@@ -46,6 +46,53 @@ def base_datagrams(ctx):
     return out
 
 
+def indefinite_variants(ctx):
+    """(label, datagram, expected) — correctly signed responses of an auth user in which one field of
+    the USM parameter block (or the block / the message itself) is written in the indefinite
+    length form, `tag 80 content 00 00`, which x690 reads; content without an inner `00 00`"""
+    from harness import indep_usm as U
+
+    out = []
+    eid = RA.V3Config().engine_id
+    method, pw = "md5", b"authpass-usr"
+    pdu = B.enc_pdu(0xA2, 77, 0, 0, [(OID, ["str", "6f6b"])])
+    scoped = B.enc_scoped(eid, b"", pdu)
+    header = B.tlv(0x30, B.enc_int(77) + B.enc_int(65507) + B.tlv(4, bytes([1])) + B.enc_int(3))
+
+    def ind(tag, content):
+        return bytes([tag, 0x80]) + content + b"\x00\x00"
+
+    contents = {"engine_id": (4, eid), "boots": (2, bytes([3])), "time": (2, bytes([3, 232])), "user": (4, b"usr"), "priv": (4, b"")}
+    specials = [("engine_id", b"\x80" * 6), ("user", b"\x80\x80\x81\x82"), ("priv", b"\x80" * 8), ("engine_id", b"\x81\x01" * 4)]
+    todo = [(k, None) for k in contents] + specials + [("block", None), ("octets", None), ("message", None)]
+    for which, special in todo:
+        parts = []
+        engine = eid
+        for k in ("engine_id", "boots", "time", "user", "auth", "priv"):
+            if k == "auth":
+                parts.append(("auth", B.tlv(4, b"\x00" * 12)))
+                continue
+            tag, c = contents[k]
+            if k == which and special is not None:
+                c = special
+                if k == "engine_id":
+                    engine = special
+            parts.append((k, ind(tag, c) if k == which else B.tlv(tag, c)))
+        inner = b"".join(t for _k, t in parts)
+        block = ind(0x30, inner) if which == "block" else B.tlv(0x30, inner)
+        octets = ind(0x04, block) if which == "octets" else B.tlv(0x04, block)
+        sc = B.enc_scoped(engine, b"", pdu) if engine != eid else scoped
+        body = B.enc_int(3) + header + octets + sc
+        dg = ind(0x30, body) if which == "message" else B.tlv(0x30, body)
+        # where the twelve digest octets are
+        off0 = dg.index(inner) + sum(len(t) for k, t in parts[:4]) + 2
+        assert dg[off0 - 2 : off0] == b"\x04\x0c"
+        digest = U.sign(method, pw, engine, dg, (off0, off0 + 12))
+        signed = dg[:off0] + digest + dg[off0 + 12 :]
+        out.append((f"indefinite/{which}" + ("/0x80-octets" if special else ""), signed, ["ok", dg.hex()]))
+    return out
+
+
 def expected(dg):
     """independent: digest window from the harness's own parser"""
     m = B.parse_message(dg)
@@ -97,6 +144,20 @@ def run(ctx, res, reqs, impls):
         res.count("rawdigest-form:" + label.split("/")[1])
         case = {"input": label, "datagram": dg.hex()}
         want = expected(dg)
+        if got != want:
+            res.violate("unit-rawdigest", case, want[0:1] + [str(want[1])[:200]], got[0:1] + [str(got[1:])[:200]],
+                        "the MAC input is not the datagram as received with exactly the digest octets zeroed", {"kind": "usm-in", "what": "raw-digest"})
+        reqs.append({"op": "usm.reset", "datagram": dg.hex()})
+        impls.append(("unit-rawdigest", case, got))
+    # indefinite-length forms on the way to the digest (x690 reads them)
+    for label, dg, want in indefinite_variants(ctx):
+        got = real(dg)
+        res.evaluations += 1
+        res.count("rawdigest:indefinite")
+        case = {"input": label, "datagram": dg.hex()}
+        if got[0] == "hang":
+            res.violate("unit-rawdigest", case, "a result or an exception", "no return", "locating the digest did not finish within the time budget", {"kind": "hang", "x690_loop_predicted": False})
+            continue
         if got != want:
             res.violate("unit-rawdigest", case, want[0:1] + [str(want[1])[:200]], got[0:1] + [str(got[1:])[:200]],
                         "the MAC input is not the datagram as received with exactly the digest octets zeroed", {"kind": "usm-in", "what": "raw-digest"})
